@@ -2,6 +2,7 @@ package receiver
 
 import (
 	"os"
+	"sync"
 
 	"github.com/gokrazy/rsync/internal/log"
 	"github.com/gokrazy/rsync/internal/progress"
@@ -54,6 +55,9 @@ type Transfer struct {
 	Users           map[int32]mapping
 	Groups          map[int32]mapping
 	retouchDirPerms bool
+
+	// bg counts the goroutines of Do that are still running.
+	bg sync.WaitGroup
 }
 
 func (rt *Transfer) listOnly() bool { return rt.Dest == "" }
